@@ -42,7 +42,7 @@ func call(f func(ctx context.Context) error) (err error, returned bool) {
 
 // crafted calls get a short deadline: when the scripted peer sends nothing acceptable the client
 // waits for its deadline, and nothing is learnt from waiting longer
-const craftedLimit = 1200 * time.Millisecond
+const craftedLimit = 600 * time.Millisecond
 
 func callWithin(limit time.Duration, f func(ctx context.Context) error) (err error, returned bool) {
 	res := make(chan error, 1)
@@ -273,7 +273,7 @@ func runClientNTS(e *netEnv, a []val) string {
 	_, kePort, _ := net.SplitHostPort(p.ln.Addr().String())
 	c.Auth.NTSKEFetcher.Port = kePort
 	local := &net.UDPAddr{IP: e.peerIP}
-	ntsLimit := 3 * time.Second
+	ntsLimit := 1200 * time.Millisecond
 	do := func(keLens []int64, mode int64, replyLens []int64) error {
 		p.mu.Lock()
 		p.keLens = keLens
